@@ -68,6 +68,25 @@ def families(tier):
                 out.append(dict(prop='C07', family='c07.concurrent', id=f'c07/{sname}-{entry}{entry2}-i{int(inside)}-p{int(par)}-o{"".join(order)}', cfg=cfg2,
                                 params=dict(edges=edges, entry=entry),
                                 scn=dict(buses={b: dict(parallel=par) for b in names}, order=order, handlers=hs, main=main, actors=[], forwards=edges, settle=3.0)))
+    # several forwards per bus in interleaved registration order (B, C, B), and forwarders written as plain handler functions
+    # (`def fwd(e): return other.dispatch(e)`), which the loop filter does not recognise as forwarding handlers
+    multi = {'bcb': [('A', 'B'), ('A', 'C'), ('A', 'B')], 'bcb_back': [('A', 'B'), ('A', 'C'), ('A', 'B'), ('C', 'A')], 'cbc_chain': [('A', 'C'), ('A', 'B'), ('A', 'C'), ('B', 'C')],
+             'both_ways': [('A', 'B'), ('B', 'A'), ('A', 'C'), ('B', 'C'), ('A', 'B')]}
+    for sname, edges in multi.items():
+        for entry, custom, fwd_first in itertools.product(names, ('none', 'all', 'mixed'), (False, True)):
+            hs = probes(names)
+            real, k = [], 0
+            for (a, b) in edges:
+                k += 1
+                if custom == 'all' or (custom == 'mixed' and k % 2 == 0):
+                    hs.append(dict(bus=a, pat='*', name=f'fwd{k}_{a}{b}', prog=[('redisp', b, 'self')], kind='sync'))
+                else:
+                    real.append((a, b))
+            for order in (names, names[::-1]):
+                out.append(dict(prop='C07', family='c07.multi_forward', id=f'c07/{sname}-{entry}-c{custom}-f{int(fwd_first)}-o{"".join(order)}', cfg=cfg2,
+                                params=dict(edges=edges, entry=entry),
+                                scn=dict(buses={b: {} for b in names}, order=order, handlers=hs, main=[('disp', entry, 'P', 'ff')], actors=[], forwards=real,
+                                         fwd_first=fwd_first, settle=3.0)))
     if deep:
         n4 = ['A', 'B', 'C', 'D']
         offdiag = [(i, j) for i in range(4) for j in range(4) if i != j]
